@@ -660,4 +660,27 @@ def rule_pin(ctx: Ctx) -> List[Ob]:
                     ok = isinstance(s, ast.Assign) and pure_bound(s.value)
                     obs.append(ob("PIN", "pinned value is a copy of a bound", f, s, ok,
                                   f"{short(s)}" + ("" if ok else ": computed by arithmetic -- off by an ulp, the variable looks free to get_freev")))
+    # after the walk the pinned entries stay as they are: the Cauchy point may only be completed on the variables the walk
+    # did not reach (`x_cp[t >= t_cur] = ..`); rebuilding x_cp as a whole recomputes the pinned ones by arithmetic
+    after = f.node.body[f.node.body.index(loops[0]) + 1:]
+    for st in after:
+        for s in ast.walk(st):
+            if isinstance(s, (ast.Assign, ast.AugAssign, ast.AnnAssign)):
+                tg = s.targets if isinstance(s, ast.Assign) else [s.target]
+                for t in tg:
+                    if isinstance(t, ast.Name) and t.id == "x_cp":
+                        obs.append(ob("PIN", "after the walk only the variables not reached are written", f, s, False,
+                                      f"`{short(s, 70)}` rebuilds the whole Cauchy point: the pinned variables are recomputed (x - t g is the bound only up to rounding)",
+                                      construct=f"after the walk: {short(s, 50)}"))
+                    if isinstance(t, ast.Subscript) and src(strip_sub(t)) == "x_cp":
+                        m_ = src(t.slice).replace(" ", "")
+                        okm = m_ in ("t>=t_cur", "t_cur<=t", "t>=t_old", "~(t<t_cur)")
+                        if not okm and isinstance(t.slice, ast.Name):
+                            # a named mask: bound once to `t >= t_cur`
+                            defs_ = [q for q in ast.walk(f.node) if isinstance(q, (ast.Assign, ast.AnnAssign)) and getattr(q, "value", None) is not None
+                                     and src(q.targets[0] if isinstance(q, ast.Assign) else q.target) == t.slice.id]
+                            okm = len(defs_) == 1 and src(defs_[0].value).replace(" ", "") in ("t>=t_cur", "t_cur<=t")
+                        obs.append(ob("PIN", "after the walk only the variables not reached are written", f, s, okm,
+                                      f"`{short(s, 70)}`" + ("" if okm else ": writes entries the walk may have pinned"),
+                                      construct=f"after the walk: {short(s, 50)}"))
     return obs
